@@ -145,6 +145,26 @@ theorem C17_tables_in_sync :
     (∀ d ∈ Gen.icause, (lookupNat d.2 Gen.hasProcessTable).isSome ∧
                         (lookupNat d.2 Gen.toCauseTable).isSome) := by decide
 
+/-- does `v` fit an integer field of `bits` bits -/
+def fitsField (bits : Nat) (signed : Bool) (v : Int) : Bool :=
+  if signed then decide (-(2 ^ (bits - 1) : Int) ≤ v) && decide (v < 2 ^ (bits - 1)) else decide (0 ≤ v) && decide (v < 2 ^ bits)
+
+def fieldOf (name : String) : Nat × Bool :=
+  match Gen.constFields.find? (fun f => f.1 == name) with
+  | some f => f.2
+  | none => (0, false)
+
+/-- **C17.table_fields_fit** — tie to the source (regenerated): every constant of every enabled row of
+`consts[]` fits the integer type of the `struct Const` field that holds it, so the C compiler stores the table
+as written (the constants expand from system-header macros: a field too narrow for one of them - `SI_KERNEL` is
+0x80 - truncates it without a warning and the row never matches). `si_code` / `si_signo` are `int`: a field at
+least that wide compares exactly. -/
+theorem C17_table_fields_fit :
+    (∀ r ∈ Gen.causeRows, fitsField (fieldOf "native").1 (fieldOf "native").2 r.1 = true ∧
+                           fitsField (fieldOf "signal").1 (fieldOf "signal").2 r.2.1 = true ∧
+                           fitsField (fieldOf "translated").1 (fieldOf "translated").2 r.2.2 = true) ∧
+    (fieldOf "native").2 = true ∧ (fieldOf "signal").2 = true := by decide
+
 /-- **C17.extract_meets_spec** — the three facts together: for every kernel record, the model
 of `Origin::extract` returns exactly what the property demands (`specOrigin`, the monitor the
 harness applies to the real code). -/
